@@ -97,8 +97,9 @@ fn assemble_in(ctx: PreprocessorContext, src: &str) -> Result<Assembled, AsmErr>
             let mut labels = HashMap::new();
             let mut label_src_pos = HashMap::new();
             for (k, l) in label_map.iter() {
-                labels.insert(k.clone(), (matches!(l.get_type(), LabelType::DATA), l.map));
-                label_src_pos.insert(k.clone(), l.source_position);
+                // (casts: the harness does not depend on the integer width of the library's public fields)
+                labels.insert(k.clone(), (matches!(l.get_type(), LabelType::DATA), l.map as usize));
+                label_src_pos.insert(k.clone(), l.source_position as usize);
             }
             let mut undefined: Vec<(usize, String)> = undefined_labels.into_iter().collect();
             undefined.sort();
@@ -108,7 +109,7 @@ fn assemble_in(ctx: PreprocessorContext, src: &str) -> Result<Assembled, AsmErr>
                 labels,
                 label_src_pos,
                 // container types of the library's maps are not relied upon
-                fn_map: fn_map.into_iter().collect(),
+                fn_map: fn_map.into_iter().map(|(k, v)| (k, v as usize)).collect(),
                 undefined,
                 source_map: mapper.get_source_map().into_iter().collect(),
             })
@@ -143,7 +144,7 @@ impl Assembled {
                 lib::Label::new(if *is_data { LabelType::DATA } else { LabelType::CODE }, 0, *m),
             );
         }
-        c.fn_map = self.fn_map.iter().map(|(k, v)| (k.clone(), *v)).collect();
+        c.fn_map = self.fn_map.iter().map(|(k, v)| (k.clone(), *v as _)).collect();
         c
     }
     /// data label offsets for the reference
